@@ -6,14 +6,9 @@
 (* clauses of C09.  One successor per event: every free choice of the      *)
 (* contract is bound to the logged value.                                  *)
 (***************************************************************************)
-EXTENDS Theta, Json, IOUtils
-VARIABLES l, cv, blob, nt
-tvars == <<obj, l, cv, blob, nt>>
-Log == ndJsonDeserialize(IOEnv.TRACE)
-Chk(name, c) == IF c THEN TRUE ELSE PrintT(<<"REJECT", name, l>>) /\ FALSE
-ToSet(s) == {s[i] : i \in DOMAIN s}
-Asc(s) == \A i \in 1..(Len(s) - 1) : s[i] < s[i + 1]
-IsEvent(k) == l <= Len(Log) /\ Log[l].e = k /\ l' = l + 1
+EXTENDS Theta, TraceCommon
+VARIABLES cv, blob
+tvars == <<obj, l, cv, blob>>
 
 \* model value of a compact sketch: what the API must expose
 Val(o) == CompactValue(o) @@ [maxH |-> o.maxH]
@@ -32,7 +27,7 @@ ValOK(r, v) ==
      /\ Chk("exact-estimate", ~est => /\ r.estI = Cardinality(v.ent)
                                        /\ \A k \in 1..3 : r.lb[k] = r.est /\ r.ub[k] = r.est)
   \* C06(a): lb3 <= lb2 <= lb1 <= est <= ub1 <= ub2 <= ub3 (order on renamed doubles)
-  /\ Chk("bounds", /\ r.lb[3] <= r.lb[2] /\ r.lb[2] <= r.lb[1] /\ r.lb[1] <= r.est
+  /\ Chk("C06:bounds", /\ r.lb[3] <= r.lb[2] /\ r.lb[2] <= r.lb[1] /\ r.lb[1] <= r.est
                    /\ r.est <= r.ub[1] /\ r.ub[1] <= r.ub[2] /\ r.ub[2] <= r.ub[3])
 
 Scalars(e, o) == /\ Chk("theta", e.thetaH = ObsTheta(o))
@@ -40,52 +35,49 @@ Scalars(e, o) == /\ Chk("theta", e.thetaH = ObsTheta(o))
                  /\ Chk("empty", e.empty = o.empty)
 TParam(o, logged) == IF o.empty THEN o.thetaH ELSE logged
 
-TBegin == IsEvent("Begin") /\ obj' = <<>> /\ cv' = <<>> /\ blob' = <<>> /\ UNCHANGED nt
-TNew == IsEvent("New") /\ LET e == Log[l] IN New(e.id, e.k, e.startH, e.maxH) /\ UNCHANGED <<cv, blob, nt>>
+TBegin == IsEvent("Begin") /\ obj' = <<>> /\ cv' = <<>> /\ blob' = <<>>
+TNew == IsEvent("New") /\ LET e == Log[l] IN New(e.id, e.k, e.startH, e.maxH) /\ UNCHANGED <<cv, blob>>
 TUpdate == IsEvent("Update") /\ LET e == Log[l] IN
              /\ Update(e.id, e.hH, e.thetaH)
              /\ Scalars(e, obj'[e.id])
-             /\ nt' = IF obj'[e.id].thetaH < obj[e.id].thetaH THEN nt + 1 ELSE nt
              /\ UNCHANGED <<cv, blob>>
 TUpdateIgnored == IsEvent("UpdateIgnored") /\ LET e == Log[l] IN
-             /\ UpdateIgnored(e.id) /\ Scalars(e, obj[e.id]) /\ UNCHANGED <<cv, blob, nt>>
+             /\ UpdateIgnored(e.id) /\ Scalars(e, obj[e.id]) /\ UNCHANGED <<cv, blob>>
 TTrim == IsEvent("Trim") /\ LET e == Log[l] IN
              /\ Trim(e.id, TParam(obj[e.id], e.thetaH))
-             /\ Scalars(e, obj'[e.id]) /\ UNCHANGED <<cv, blob, nt>>
+             /\ Scalars(e, obj'[e.id]) /\ UNCHANGED <<cv, blob>>
 TReset == IsEvent("Reset") /\ LET e == Log[l] IN
-             /\ Reset(e.id) /\ Scalars(e, obj'[e.id]) /\ UNCHANGED <<cv, blob, nt>>
+             /\ Reset(e.id) /\ Scalars(e, obj'[e.id]) /\ UNCHANGED <<cv, blob>>
 TObs == IsEvent("Obs") /\ LET e == Log[l] IN
-             /\ ValOK(e.r, Val(obj[e.id])) /\ UNCHANGED <<obj, cv, blob, nt>>
+             /\ ValOK(e.r, Val(obj[e.id])) /\ UNCHANGED <<obj, cv, blob>>
 TCopy == IsEvent("Copy") /\ LET e == Log[l] IN
-             /\ Copy(e.src, e.dst) /\ ValOK(e.r, Val(obj'[e.dst])) /\ UNCHANGED <<cv, blob, nt>>
+             /\ Copy(e.src, e.dst) /\ ValOK(e.r, Val(obj'[e.dst])) /\ UNCHANGED <<cv, blob>>
 TCompact == IsEvent("Compact") /\ LET e == Log[l]
                                       v == Val(obj[e.src]) @@ [ordered |-> e.r.ordered] IN
              /\ ValOK(e.r, v)
              /\ Chk("ordered-requested", e.ordered => e.r.ordered)
-             /\ cv' = (e.dst :> v) @@ cv /\ UNCHANGED <<obj, blob, nt>>
+             /\ cv' = (e.dst :> v) @@ cv /\ UNCHANGED <<obj, blob>>
 TSer == IsEvent("Ser") /\ LET e == Log[l] IN
-             /\ Chk("bytes=stream", e.img = e.simg)
-             /\ Chk("advertised-size", e.size = e.advertised)
-             /\ Chk("header", e.total = e.hdr + e.size)
-             /\ Chk("max-size", e.size <= e.maxsize)
+             /\ Chk("C09:bytes=stream", e.img = e.simg)
+             /\ Chk("C09:advertised-size", e.size = e.advertised)
+             /\ Chk("C09:header", e.total = e.hdr + e.size)
+             /\ Chk("C09:max-size", e.size <= e.maxsize)
              \* equal values serialize to equal images in the same variant (same entry order: same object lineage)
              /\ blob' = (e.blob :> [val |-> cv[e.src], img |-> e.img, size |-> e.size]) @@ blob
-             /\ UNCHANGED <<obj, cv, nt>>
+             /\ UNCHANGED <<obj, cv>>
 TDeser == IsEvent("Deser") /\ LET e == Log[l]  b == blob[e.blob] IN
              /\ ValOK(e.r, b.val)
              /\ Chk("ordered-flag", e.r.ordered = b.val.ordered)
-             /\ Chk("consumed", e.consumed = b.size)
-             /\ Chk("reserialize", e.reimg = b.img)
-             /\ cv' = (e.dst :> b.val) @@ cv /\ UNCHANGED <<obj, blob, nt>>
+             /\ Chk("C09:consumed", e.consumed = b.size)
+             /\ Chk("C09:reserialize", e.reimg = b.img)
+             /\ cv' = (e.dst :> b.val) @@ cv /\ UNCHANGED <<obj, blob>>
 TWrap == IsEvent("Wrap") /\ LET e == Log[l]  b == blob[e.blob] IN
              /\ ValOK(e.r, b.val) /\ ValOK(e.r2, b.val)
              /\ Chk("ordered-flag", e.r.ordered = b.val.ordered /\ e.r2.ordered = b.val.ordered)
-             /\ cv' = (e.dst :> b.val) @@ cv /\ UNCHANGED <<obj, blob, nt>>
+             /\ cv' = (e.dst :> b.val) @@ cv /\ UNCHANGED <<obj, blob>>
 
-TInit == obj = <<>> /\ l = 1 /\ cv = <<>> /\ blob = <<>> /\ nt = 0
+TInit == obj = <<>> /\ l = 1 /\ cv = <<>> /\ blob = <<>>
 TNext == TBegin \/ TNew \/ TUpdate \/ TUpdateIgnored \/ TTrim \/ TReset \/ TObs \/ TCopy \/ TCompact
          \/ TSer \/ TDeser \/ TWrap
 TSpec == TInit /\ [][TNext]_tvars
-Accepted == /\ TLCGet("stats").diameter = Len(Log) + 1
-            /\ PrintT(<<"ACCEPTED", Len(Log)>>)
 ====
